@@ -35,6 +35,7 @@ EXPLANATION = (
     ' C04.M: the memory primitives (Arrays, RegisterGroup, SharedMemory) store exactly once what they are given and declare fresh arrays. C04.F: inside an executor method no state effect precedes an explicit raise/assert on any path (a fault leaves the state untouched). C04.Z: no truthiness test on an int-typed value.'
     ' C04.Q: the in-use-set bookkeeping rules of C13.U evaluated under this property (qalloc / qfree bookkeeping). C04.K: memoisation keys cover the arguments.'
     ' Executed abstractly (checker-side AST interpreter, nothing of the repository runs): _handle_branch_instr for the six predicates over a 4x4 grid of operand values with two applications (counter = target iff the reference predicate holds, else +1; other counters untouched); the seven state accessors (_get/_set_register, _expand_array_part incl. undefined index registers, _get/_set_array_entry, _get_array, _initialize_array) on modelled register banks and array stores of two applications; _compute_binary_classical_instr for the four classes over a grid and four moduli; RegisterGroup.__getitem__.'
+    ' C04.E executes the command loop with a scripted _execute_command over eight counter histories and three fault positions with a raising and a returning exception hook; C04.M executes SharedMemory.set_register / get_register for four banks and both register forms; C04.H: no type test already decided by an earlier test on a base class.'
 )
 LEVEL_TEXT = (
     "Static analysis, partial: per-handler and per-instruction-class clauses (dispatch, PC-once, None guards, predicates, operand-role "
